@@ -299,6 +299,19 @@ func Ops() []OpDef {
 				{ChannelInput: "", ChannelResponse: ""},
 			}, tmo(o)...))
 		}})
+	add(OpDef{Name: "generic.SendWithCallbacks-plain", Kind: "cli", Override: true, ErrClass: "timeout", Setup: gen, Recovery: true,
+		Call: func(c *OpCtx, o time.Duration) (string, error) {
+			cb, _ := generic.NewCallback(nil, opoptions.WithCallbackContains("router#"), opoptions.WithCallbackComplete())
+			t := o
+			if t < 0 {
+				t = c.TConn
+			}
+			if t == 0 {
+				t = util.MaxTimeout * time.Second
+			}
+			c.Begin()
+			return rres(c.G.SendWithCallbacks(Cmd1, []*generic.Callback{cb}, t))
+		}})
 	add(OpDef{Name: "generic.SendWithCallbacks", Kind: "cli", Override: true, ErrClass: "timeout", Setup: gen,
 		Call: func(c *OpCtx, o time.Duration) (string, error) {
 			cb1, _ := generic.NewCallback(func(d *generic.Driver, _ string) error { return d.Channel.WriteAndReturn(nil, false) },
